@@ -27,12 +27,17 @@ def jobs(tier):
         J.append(kw)
     if tier == "quick":
         add(k=1, n=0, L=2, fast=False, nvt=0)
+        add(k=1, n=2, L=0, fast=False, nvt=0)
+        add(k=1, n=2, L=0, fast=False, nvt=0, real_arith=True)
+        add(k=1, n=2, L=2, fast=False, nvt=0, real_arith=True)
         add(k=1, n=2, L=3, fast=False, nvt=0)
         add(k=1, n=2, L=4, fast=True, nvt=0)
         add(k=1, n=2, L=3, fast=False, nvt=2)
         add(k=1, n=1, L=2, fast=True, nvt=1)
         add(k=2, n=2, L=3, fast=False, nvt=0)
     else:
+        add(k=1, n=2, L=0, fast=False, nvt=0)
+        add(k=1, n=3, L=1, fast=False, nvt=0)
         for n in (0, 1, 2, 3):
             add(k=1, n=n, L=max(2 * n, 1), fast=False, nvt=0)
             add(k=1, n=n, L=max(2 * n, 1), fast=True, nvt=0)
